@@ -213,8 +213,8 @@ driver("C14",
 driver("C15",
        "differential monitor over configurations: one generated chain indexed under all 8 combinations of the sat / address / transaction indexes (inscriptions and runes on), with the first inscription / rune height at 0 or moved to 12..30 through hook H5 so that configurations without a full UTXO index fetch spent values from the node; projections of the inscription and rune tables compared",
        "Exploration over histories x the 8 optional-index combinations x {local tracking, node-fetch path} x 3 update chunkings; the evidence counts runs on each value path.",
-       "chain of 35-80 blocks (60-160 thorough) mixing transfers, reveals (zero-value inputs, same-block spends, fee-spent and OP_RETURN destinations) and rune transactions; projection = inscription entries without sat and sat-derived charm bits, locations, id/number lookups, children, collections, per-height sequence numbers, blessed/cursed/unbound/rune statistics, rune entries and balances. distinct = (index bits, first-height override, chunking).",
-       {"evaluations": 60, "projections_equal": 30, "runs_with_full_utxo_index": 20, "runs_fetching_values_from_node": 8})
+       "chain of 35-80 blocks (60-160 thorough) mixing transfers, reveals (zero-value inputs, same-block spends, fee-spent and OP_RETURN destinations) and rune transactions, plus - when the first height is moved - one to three sweeper transactions that spend 11-45 outputs created below that height with a reveal on a non-first input (their values are fetched from the node in batches, --bitcoin-rpc-limit in {default, 1, 2, 4}); projection = inscription entries without sat and sat-derived charm bits, locations, id/number lookups, children, collections, per-height sequence numbers, blessed/cursed/unbound/rune statistics, rune entries and balances. distinct = (index bits, first-height override, chunking).",
+       {"evaluations": 60, "projections_equal": 30, "runs_with_full_utxo_index": 20, "runs_fetching_values_from_node": 8, "sweeper_transactions": 8})
 
 driver("C16",
        "totality monitor: Index::update() on generated valid chains that mix every generator class with an adversarial one (random witness stacks, dozens of envelopes per script, hostile CBOR / brotli in metadata and properties, multi-megabyte scripts, deep OP_IF nesting, runestones of 10^4 integers, u128::MAX edicts) under all 32 index configurations and both UTXO value paths; a returned error, a panic (caught, checked build) or a dead shard process (SIGSEGV/SIGABRT: stack overflow, allocation failure) is a violation",
@@ -333,6 +333,12 @@ codec("C35",
       {"evaluations": 200000, "readback_ok_rune_entries": 5000, "readback_ok_inscription_entries": 5000, "readback_ok_sat_ranges": 5000, "readback_ok_rune_balances": 5000, "redb_transactions": 200, "utxo_entry_ok": 3000, "utxo_merge_ok": 2000, "utxo_flags_000": 300, "utxo_flags_111": 300, "packed_layout_ok": 5000, "sat_range_bit_grid_enumerated": 1},
       budget_quick=20)
 
+
+# The wall-clock watchdog only ever yields "inconclusive"; cases of these checks
+# are long (a whole chain under 8 configurations, a wallet with a dozen command
+# runs), so a loaded machine needs more slack before a shard is given up.
+for _p in ("C12", "C13", "C14", "C15", "C16", "C18", "C19", "C21", "C22", "C23", "C24"):
+    CHECKS[_p]["watchdog_factor"] = 10
 
 # Coverage floors exist to fail a run that observed (almost) nothing, not to
 # measure throughput: the engine checks above were written against an unloaded
